@@ -76,7 +76,15 @@ def make_conn(stream, fail_at=None):
             log_event('read-error', 'ECONNRESET')
             raise AbsRaise('OSError', node, attrs={'errno': 104, 'args': (104, 'Connection reset by peer'), 'strerror': 'Connection reset by peer'})
         return b''
-    conn = pm.AMock('conn', {'fileno': fileno, 'makefile': makefile,
+    def shutdown(interp, base, args, kwargs, node):
+        # shutting down a connection the peer has reset (or whose pipe is broken) fails: the socket is no longer connected
+        if (st.get('reset') and st['eof_seen']) or st.get('broken_pipe'):
+            log_event('shutdown-error', 'ENOTCONN')
+            raise AbsRaise('OSError', node, attrs={'errno': 107, 'args': (107, 'Transport endpoint is not connected'),
+                                                   'strerror': 'Transport endpoint is not connected'})
+        log_event('shutdown')
+        return None
+    conn = pm.AMock('conn', {'fileno': fileno, 'makefile': makefile, 'shutdown': shutdown,
                              'close': lambda i, b, a, k, n: st['closed'].append('socket'),
                              'setblocking': lambda i, b, a, k, n: None})
     conn.state = st
@@ -441,6 +449,24 @@ def r18_4(ctx):
         ctx.require(ok, 'R18.3', 'PortServer.close', ctx.where(ps.methods['_close']),
                     f'closing the server closed {holder["ssock"].state["closed"]} and client {holder["clients"][0].state["closed"]}: {oc}',
                     construct=f'{ps.qname}._close::release')
+    # ... whatever the number of connections it holds: none (nobody ever connected), two; and a second close() releases nothing again
+    for label, nclients in (('no connection', 0), ('two connections', 2)):
+        def thunk_n():
+            holder['clients'] = [make_conn([0x91, n1, v1, GAP]) for _ in range(nclients)]
+            server = pm.new_port(ai, ctx, 'PortServer', ['localhost', 9080], {}, module=S)
+            for _ in range(nclients):
+                pm.call(ai, ctx, server, 'poll')
+            pm.call(ai, ctx, server, 'close')
+            pm.call(ai, ctx, server, 'close')
+            return server
+        outs = ai.explore(thunk_n)
+        oc = c11.one(ctx, 'R18.3', f'PortServer.close ({label})', ctx.where(ps.methods['_close']), outs, f'{ps.qname}._close::release')
+        if oc is not None:
+            ok = oc.kind == 'return' and holder['ssock'].state['closed'] == ['server-socket'] and \
+                all(sorted(c.state['closed']) == ['rfile', 'socket', 'wfile'] for c in holder['clients']) and oc.value.attrs.get('closed') is True
+            ctx.require(ok, 'R18.3', f'PortServer.close ({label})', ctx.where(ps.methods['_close']),
+                        f'closing the server twice closed {holder["ssock"].state["closed"]} (the listening socket must be released exactly once) and '
+                        f'clients {[c.state["closed"] for c in holder["clients"]]}: {oc}', construct=f'{ps.qname}._close::release')
     for q in ai.inlined:
         ctx.functions.add(q)
 
